@@ -359,6 +359,8 @@ pub struct SymBus<const P: usize, const ILEN: usize> {
     pub max_polls: u8,
     /// explore only conversations with at most this many transfer attempts (3 = all)
     pub max_attempts: u8,
+    /// unrelated replies: false = Hello only, true = Hello, DataChunksSent, SendData
+    pub rich: bool,
     /// invariants (C11)
     pub dead: bool,
     pub sent_after_dead: bool,
@@ -376,6 +378,7 @@ impl<const P: usize, const ILEN: usize> SymBus<P, ILEN> {
             items,
             max_polls,
             max_attempts: 3,
+            rich: true,
             dead: false,
             sent_after_dead: false,
             foreign_address_sent: false,
@@ -450,7 +453,8 @@ impl<const P: usize, const ILEN: usize> SymBus<P, ILEN> {
         // acknowledgement from ANY address with ANY state / operation, and unrelated messages
         // (three representative kinds; the controller treats all other kinds alike).
         let k: u8 = kani::any();
-        kani::assume(k < 7);
+        // lean alphabet: one unrelated kind (Hello); rich: three, incl. a heap-carrying data chunk
+        kani::assume(k < if self.rich { 7 } else { 5 });
         let a = Address(kani::any());
         match k {
             0 => Ok(None),
